@@ -769,7 +769,9 @@ func checkSafeWhitelist(c *Ctx, safe *ssa.Function) {
 		cuts := newCuts().addEdges(whitelistTrue(pred, pred.Params[0]))
 		cuts.closeBoolPhis(pred)
 		// value of a boolean expression under the assumption (every whitelist test false)
-		evalAssumed := func(v ssa.Value, d int) (val, known bool) { return evalNoWhitelist(whitelistTrue, pred.Params[0], v, d) }
+		evalAssumed := func(v ssa.Value, d int) (val, known bool) {
+			return evalNoWhitelist(whitelistTrue, pred.Params[0], v, d)
+		}
 		accept, _ := reach(entrySite(pred), func(x ssa.Instruction) bool {
 			r, isR := x.(*ssa.Return)
 			if !isR {
